@@ -258,3 +258,31 @@ PROPS["C36"] = {
                      "the extraction rewrite rules listed in the evidence (rule_firings)"],
     "not_covered": ["enumerate_objects (dyn visitor)", "LargeObjectSpace's use of the treadmill (mark/nursery bits, page release) - whole-space"],
 }
+
+PROPS["C37"] = {
+    "level": "proof",
+    "engine": "verus",
+    "technique": "Verus contracts on the extracted Compressor Transducer (exact state-update postconditions) + inductive lemmas over mark-bit sequences",
+    "anchors": [("Transducer", "src/policy/compressor/forwarding.rs"), ("visit_mark_bit", "src/policy/compressor/forwarding.rs"),
+                ("encode", "src/policy/compressor/forwarding.rs"), ("decode", "src/policy/compressor/forwarding.rs")],
+    "verus": ["compressor_fwd"],
+    "functions": ["Transducer::{new, visit_mark_bit, encode, decode} (extracted verbatim)", "Address: struct, ZERO, from_usize, as_usize, "
+                  "impl Add<ByteSize>, impl Sub<Address> (extracted verbatim, specified through vstd AddSpecImpl/SubSpecImpl)",
+                  "lemmas: lemma_encode_decode, lemma_resume_from_block, lemma_run_prefix, lemma_live_before_bound/monotone, theorem_c37"],
+    "explanation": "visit_mark_bit/encode/decode/new are proved to implement exactly the integer-level transition `step` and the "
+                   "encode/decode functions (machine arithmetic: no-overflow preconditions; bit tricks discharged by bit_vector). Over that "
+                   "spec, by induction on the number of objects: starting at the region start and visiting the first/last-word mark bits "
+                   "of any well-formed layout (word-aligned, >= 2 words, ordered, non-overlapping, above the region start), the transducer's "
+                   "`to` before object n equals region start + total size of the objects before it (lemma_run_prefix); hence forwarding "
+                   "addresses are strictly ordered, non-overlapping and never above the original address (theorem_c37). "
+                   "lemma_resume_from_block shows that resuming from the state cached at a 512-byte block start (decode(encode(..))) gives "
+                   "the same result, also when the block boundary falls inside an object. Unbounded in the number and size of objects.",
+    "bounds": ["none"],
+    "assumptions": ["the scanning glue: ForwardingMetadata::calculate_offset_vector/forward feed visit_mark_bit exactly the set mark bits of the "
+                    "range in ascending address order (scan_non_zero_values, C22) and the offset vector returns what was stored (C20)",
+                    "no-overflow preconditions of visit_mark_bit/encode (to + live bytes <= usize::MAX: addresses inside one region)"],
+    "trusted_base": ["usize is 64 bits (global size_of usize == 8)", "BYTES_IN_WORD == 8 re-declared in the unit prelude",
+                     "vstd AddSpecImpl/SubSpecImpl linking of operator impls", "the extraction rewrite rules listed in the evidence"],
+    "not_covered": ["ForwardingMetadata::{calculate_offset_vector, forward, scan_marked_objects, mark_last_word_of_object} closure glue",
+                    "CompressorSpace's use of the forwarding addresses (whole-space)"],
+}
